@@ -42,6 +42,9 @@ func c16Oracle(c *h.Ctx, sc srvScenario, r srvResult, caseJSON any) {
 		}
 		c.Fail("C16/event-after-shutdown-returned/"+kind, "after Shutdown returned: "+strings.Join(r.SdLate, ", "), caseJSON)
 	}
+	if r.Sd2Ran && (r.Sd2Running > 0 || r.Sd2Hang) {
+		c.Fail("C16/handler-running-at-second-shutdown-return", fmt.Sprintf("a second Shutdown call made while the first was draining returned with %d handlers in progress (hang=%v)", r.Sd2Running, r.Sd2Hang), caseJSON)
+	}
 	if r.SdRunning > 0 {
 		c.Fail("C16/handler-running-at-shutdown-return", fmt.Sprintf("%d handlers in progress when Shutdown returned", r.SdRunning), caseJSON)
 	}
@@ -168,6 +171,10 @@ func c16Scenarios(c *h.Ctx) []srvScenario {
 		l = append(l, one(srvConn{Steps: []srvStep{R(b), R("ok"), S("waith"), S("shutdown"), {Op: "settle", Arg: 5}, S("release"), S("read"), S("read"), S("waitshutdown"), S("close")}}))
 	}
 	l = append(l, one(srvConn{Steps: []srvStep{R("slowi"), S("waith"), S("shutdown"), S("grace"), S("release"), S("read"), S("waitshutdown"), S("close")}}))
+	// a second Shutdown call while the first one is draining (listener already closed): it too returns only when nothing runs
+	for _, b := range []string{"slow", "slowi", "ok"} {
+		l = append(l, one(srvConn{Steps: []srvStep{R(b), S("waith"), S("shutdown"), {Op: "settle", Arg: 5}, S("shutdown2"), {Op: "settle", Arg: 30}, S("release"), S("read"), S("waitshutdown"), S("close")}}))
+	}
 	l = append(l, one(srvConn{Steps: []srvStep{R("slow"), S("waith"), S("shutdown"), S("grace"), S("read"), S("waitshutdown"), S("close")}}))
 	// mid-response: the peer does not read the response; the grace period ends the write
 	l = append(l, one(srvConn{Sync: true, Steps: []srvStep{R("ok"), {Op: "settle", Arg: 5}, S("shutdown"), S("grace"), S("waitshutdown"), S("close")}}))
